@@ -648,6 +648,15 @@ class Inliner:
                     out.append(s)
                 else:
                     budget -= 1
+                    # inlined statements take the line of the call: rules that order statements by line number keep working, and a
+                    # report points at the call of the helper
+                    line = getattr(s, "lineno", None)
+                    if line is not None:
+                        for stn in new:
+                            for x in ast.walk(stn):
+                                if hasattr(x, "lineno"):
+                                    x.lineno = line
+                                    x.end_lineno = line
                     pending = new + pending
         return out
 
@@ -717,6 +726,16 @@ def known_digests(tree: ast.Module, modname: str) -> Dict[str, str]:
     return {f"{modname}:{k}": body_digest(n) for k, n, _c, o in function_keys(tree) if o is None}
 
 
+def body_text(fn) -> str:
+    a = fn.args
+    params = ", ".join(x.arg for x in a.posonlyargs + a.args + a.kwonlyargs)
+    return params + "\n" + "\n".join(ast.unparse(st) for st in _body(fn))
+
+
+def known_sources(tree: ast.Module, modname: str) -> Dict[str, str]:
+    return {f"{modname}:{k}": body_text(n) for k, n, _c, o in function_keys(tree) if o is None}
+
+
 def undo_renames(tree: ast.Module, modname: str, known: Set[str]) -> int:
     """A function of the reviewed tree that is gone while a NEW function of the same module / class has exactly its parameters and body was
     renamed: it gets its reviewed name back (definition and the references inside the module), so that rules anchored at it still find it."""
@@ -746,6 +765,41 @@ def undo_renames(tree: ast.Module, modname: str, known: Set[str]) -> int:
                 x.attr = old
         del missing[cands[0]]
         done += 1
+    # renamed AND edited in the same change: the new function of the same scope whose text is closest to the vanished one (mutual best match,
+    # at least half of the lines in common)
+    sources = roles.table().get("sources", {})
+    if missing and sources:
+        import difflib
+        present = {f"{modname}:{k}": (n, c) for k, n, c, o in function_keys(tree) if o is None}
+        fresh = {k: v for k, v in present.items() if k not in known and not (v[0].name.startswith("__") and v[0].name.endswith("__"))}
+        scores = {}
+        for mk in missing:
+            if mk not in sources:
+                continue
+            m_cls = mk.split(":", 1)[1].split(".")[0] if "." in mk.split(":", 1)[1] else None
+            for fk, (node, cls) in fresh.items():
+                if cls != m_cls:
+                    continue
+                r = difflib.SequenceMatcher(None, sources[mk].splitlines(), body_text(node).splitlines()).ratio()
+                if r >= 0.5:
+                    scores[(mk, fk)] = r
+        for (mk, fk), r in sorted(scores.items(), key=lambda kv: -kv[1]):
+            if mk not in missing or fk not in fresh:
+                continue
+            if any(r2 > r for (m2, f2), r2 in scores.items() if (m2 == mk) != (f2 == fk) and m2 in missing and f2 in fresh):
+                continue
+            node, cls = fresh[fk]
+            old = mk.split(":", 1)[1].split(".")[-1]
+            new = node.name
+            node.name = old
+            for x in ast.walk(tree):
+                if isinstance(x, ast.Name) and x.id == new and cls is None:
+                    x.id = old
+                elif isinstance(x, ast.Attribute) and x.attr == new:
+                    x.attr = old
+            del missing[mk]
+            del fresh[fk]
+            done += 1
     return done
 
 
